@@ -259,6 +259,8 @@ func (pr *Printer) exprP(e Expr) (string, int) {
 		return QuoteStr(e.V), precAtom
 	case NoneLit:
 		return "none", precAtom
+	case NullLit:
+		return "null", precAtom
 	case ListLit:
 		return "[" + pr.args(e.Elems) + "]", precAtom
 	case ObjLit:
